@@ -405,12 +405,28 @@ func (cc *Conn) doInternal(req *pool.Message) (*pool.Message, error) {
 		return nil, errors.New("invalid token")
 	}
 
+	// fix the type and the message ID now, so that the response handler below knows which
+	// pending confirmable transmission the response belongs to
+	req.UpsertType(message.Confirmable)
+	req.UpsertMessageID(cc.GetMessageID())
+	reqIsConfirmable := req.Type() == message.Confirmable
+	reqMessageID := req.MessageID()
+
 	respChan := make(chan *pool.Message, 1)
-	if _, loaded := cc.tokenHandlerContainer.LoadOrStore(token.Hash(), func(_ *responsewriter.ResponseWriter[*Conn], r *pool.Message) {
+	if _, loaded := cc.tokenHandlerContainer.LoadOrStore(token.Hash(), func(w *responsewriter.ResponseWriter[*Conn], r *pool.Message) {
 		r.Hijack()
 		select {
 		case respChan <- r:
 		default:
+		}
+		if !reqIsConfirmable {
+			return
+		}
+		// RFC 7252 5.2.2: the response may arrive before (or instead of a lost) acknowledgement;
+		// for terminating the retransmission sequence it also serves as an acknowledgement.
+		if elem, ok := cc.midHandlerContainer.LoadAndDelete(reqMessageID); ok {
+			elem.ReleaseMessage(cc)
+			elem.handler(w, r)
 		}
 	}); loaded {
 		return nil, fmt.Errorf("cannot add token(%v) handler: %w", token, coapErrors.ErrKeyAlreadyExists)
